@@ -19,16 +19,16 @@ CHECKS = {
    text="For every state of the bounded space and every legal move the real apply is executed and placement, castling rights, en-passant target and turn are compared with the model successor.",
    ref="DESIGN.md §4 C03"),
  "C04": dict(tech="stateless nested apply/undo DFS over all paths (no state merging) with full observable snapshots",
-   text="All paths to the per-seed depth are walked as one nested apply/undo DFS on a single board; a full snapshot of every public observable is compared after every undo at every nesting depth, after undo of pseudo-legal transient moves, and around every query routine.",
+   text="All paths to the per-seed depth are walked as one nested apply/undo DFS on a single board; a full snapshot of every public observable is compared after every undo at every nesting depth, after undo of pseudo-legal transient moves, and around every query routine; small trees at the end of pre-rolled games of 250..520 plies (from the start position and from a root where an en-passant capture is two plies away; never merged, cache-cold generators), after which the whole game is unwound against a snapshot stack.",
    ref="DESIGN.md §4 C04"),
  "C05": dict(tech="explicit-state exploration with differential key oracle (play vs direct set-up vs first arrival) + exhaustive constant-table pair check",
    text="At every state the running key is compared with the key of the same position set up directly and, on merged arrivals, with the key recorded on first arrival; all pairs of the 768+64+16 black-box-read constants are checked pairwise distinct and non-zero.",
    ref="DESIGN.md §4 C05"),
  "C06": dict(tech="explicit-state lock-step exploration; verdicts and annotations compared with the model at every state",
-   text="At every state of the bounded space: in-check for both colours, game_ending and the check/mate annotation of every legal move are compared with the model, using long-lived generators.",
+   text="At every state of the bounded space: in-check for both colours, game_ending and the check/mate annotation of every legal move are compared with the model, using long-lived generators; plus a single-generator verdict pass, twin passes, the terminal family and the enumerated family in which a checking double step can only be answered by capturing en passant.",
    ref="DESIGN.md §4 C06"),
  "C12": dict(tech="explicit-state exploration evaluating state invariants in every visited and transient state",
-   text="Representation invariants are evaluated on a public-observer snapshot in every visited state and in every transient state reached by a pseudo-legal (king left in check) move between apply and undo.",
+   text="Representation invariants are evaluated on a public-observer snapshot in every visited state and in every transient state reached by a pseudo-legal (king left in check) move between apply and undo; the long games of C04 are unwound with the rights compared at every ply.",
    ref="DESIGN.md §4 C12"),
  "C13": dict(tech="explicit-state lock-step exploration; labels compared with an independent SAN writer",
    text="At every state every label produced by the engine is compared with the model's SAN and labels are checked pairwise distinct.",
@@ -46,7 +46,7 @@ CHECKS.update({
    text="For every square and every subset of the full rook / bishop rays (edge squares included, a superset of the 102,400 + 5,248 relevant-mask cases) times 3 off-ray noise patterns, for queens on the rook and bishop products with the other ray set empty / full, and for knights and kings with every subset of enemy pieces on their targets, the real get_attack_targets answer is compared with a ray walk; union semantics with friendly blockers are compared on every walked position.",
    ref="DESIGN.md §4 C11", note="Only the magic constants drawn by this build are examined (thorough rebuilds further draws). No answer can come from the attack cache (generator renewed on any key repeat)."),
  "C16": dict(tech="explicit-state search over (position, half-move clock) with live boards + boundary-preloaded tree walks, step-local clock oracle",
-   text="Every transition of the tree-seed walk, of walks from boards preloaded with half-move clocks 47..101 and ply counts 0..511, and of a BFS/DFS to fixpoint over (position, half-move clock <= 104) on closed locked-pawn graphs (games up to 311 plies) is executed on the real board; the clock step, its undo and the draw verdict (clock >= 100) are compared with the rule in every state.",
+   text="Every transition of the tree-seed walk, of walks from boards preloaded with half-move clocks 47..101 and ply counts 0..511, and of a BFS/DFS to fixpoint over (position, half-move clock <= 104) on closed locked-pawn graphs (games up to 311 plies) is executed on the real board; the clock step, its undo and the draw verdict (clock >= 100) are compared with the rule in every state; games of 255..1100 plies are unwound with both clocks compared at every ply.",
    ref="DESIGN.md §4 C16", note="Mated/stalemated states at clock >= 100 are not judged. Overflow checks are on in the harness build so a wrap aborts and is reported."),
  "C18": dict(tech="complete enumeration of the evaluation's table domain, of walked positions, of the material lattice extremes and of terminal position x remaining depth",
    text="Every piece-square cell in both contexts and both colours, every walked position against its colour-swapped rotated image, every legal one-side material vector at best squares against a minimal opponent, and every collected mated / stalemated position at remaining depth 0..255 are evaluated on the real functions.",
@@ -58,19 +58,19 @@ CHECKS.update({
    text="Every state within 1-2 plies of 16 seeds, every collected mated / stalemated / single-move / in-check state (cap per class reported), depth 0..3 and rayon pools of 1,2,3,8,16,64 threads: each case is one real alpha_beta_search call; the answer must be a legal move of the model or the declared error, never a panic or a hang (watchdog), and the caller's board snapshot must be unchanged.",
    ref="DESIGN.md §4 C07", note="Reduced LRU capacity hook for generators; hang = no answer within 600 s."),
  "C08": dict(tech="exhaustive enumeration of positions x depths x search histories, each compared with a cache-free exhaustive minimax oracle",
-   text="Brand-new context: seed roots, their neighbours and small endgames at depth up to 5; reused context: ALL histories search - any move - any reply - search (two rounds in thorough) from six seeds, plus engine-vs-engine lines; every search's score and move are compared with an un-pruned, un-cached minimax over the model's moves using the engine's leaf evaluation.",
+   text="Brand-new context: seed roots, their neighbours and small endgames at depth up to 5; reused context: ALL histories search - any move - any reply - search (two rounds in thorough) from six seeds and, at depth 4 (5 thorough), from small positions with loose material, plus king-path games and engine-vs-engine lines; every search's score and move are compared with an un-pruned minimax (memoised on (position, plies left) from depth 4 and cross-checked against the plain recursion) over the model's moves using the engine's leaf evaluation.",
    ref="DESIGN.md §4 C08", note="Leaf evaluation is the engine's own (C18/C06 cover it); clocks stay far from the draw threshold."),
 })
 
 CHECKS.update({
  "C09": dict(tech="stateless model checking of the real rayon search tasks under a controlled scheduler with iterative preemption bounding",
-   text="For each configuration (position, depth, empty or warmed cache) the real alpha_beta_search runs inside its own rayon pool with every root task parked at each shared-cache read / store; all schedules with at most p preemptions (p = 1 quick, 2 thorough on the small ones) and all / deviation-bounded task orders are enumerated by re-execution; the exploration starts from the index order, the reverse order and every rotation of the task order; the (move, score) outcome must be unique, no schedule may panic or hang, and free-running pools of 1,2,3,8,16,64 threads must give the same outcome. Lock granularity: a Promela model generated from the lock shapes observed on the real search is explored exhaustively by spin for deadlocks (writer- and reader-preferring locks).",
+   text="For each configuration (position, depth, empty or warmed cache) the real alpha_beta_search runs inside its own rayon pool with every root task parked at each shared-cache read / store; all schedules with at most p preemptions (p = 1 quick, 2 thorough on the small ones) and all / deviation-bounded task orders are enumerated by re-execution; the exploration starts from the index order, the reverse order and every rotation of the task order; the (move, score) outcome must be unique, no schedule may panic or hang, and free-running pools of 1,2,3,8,16,64 threads (and two passes with read critical sections stretched so that writers queue behind readers) must give the same outcome under a hang watchdog. Lock granularity: a Promela model generated from the lock shapes observed on the real search is explored exhaustively by spin for deadlocks (writer- and reader-preferring locks).",
    ref="DESIGN.md §3.7, §3.7b, §4 C09", note="On the code itself the granularity is one shared-cache operation; individual lock acquisitions are explored on the generated model only. In reduced configurations only operations on keys touched by two tasks are choice points (classification iterated to a fixpoint; validated against the all-points mode on the small configurations). Determinism of the harness is checked by replaying the default schedule twice per configuration."),
 })
 
 CHECKS.update({
  "C17": dict(tech="exhaustive enumeration of register / unregister operation histories against a multiset-of-positions model",
-   text="From five seeds (true recurrence, triangulation, castling-right loss, en-passant opportunity in both colours) every history over the alphabet {quiet menu move + register, unregister + take back} up to length 9 (11 thorough) is executed on one real board; returned count, reported count and draw verdict are compared with a multiset of full positions after every operation; every menu-move game containing a third occurrence is also played through the Game API and must be reported drawn.",
+   text="From nine seeds (true recurrence, triangulation, castling-right loss, en-passant opportunity in both colours, double step followed by a lost right in both colours, single pawn step, capture) every history over the alphabet {quiet menu move + register, unregister + take back} up to length 9 (11 thorough) is executed on one real board; returned count, reported count and draw verdict are compared with a multiset of full positions after every operation; every menu-move game containing a third occurrence is also played through the Game API and must be reported drawn.",
    ref="DESIGN.md §4 C17", note="Positions are registered after the move and the turn toggle. Multiplicities above 3 are not judged."),
 })
 
